@@ -13,36 +13,41 @@ import (
 
 // GenCfg bounds and biases the schema / input generators.
 type GenCfg struct {
-	MaxDepth    int
-	MaxFields   int
-	MaxElems    int
-	MaxTests    int
-	Mode        string  // parse | validate
-	PCatch      float64 // probability that a primitive gets Catch
-	PDefault    float64
-	PReq        float64
-	PPost       float64 // probability of a "mutate" PostTransform on a node
-	PAbsent     float64 // per node: rendered absent
-	PJunk       float64 // per node (parse): rendered as an un-coercible value
-	PVary       float64 // per leaf: a neighbour of the witness instead of the witness
-	PTestSat    float64 // per test: parameter chosen so that the witness satisfies it
-	POpts       float64 // per test: IssueCode / IssuePath / Message options
-	PZogTag     float64 // per field: zog tag
-	NoCustom    bool
-	NoPtr       bool
-	NoFuncTests bool
-	LeafKinds   []string
-	RootKinds   []string // allowed kinds at the root (nil = any)
-	ManyFields  bool     // allow structs with more than 8 fields
-	FullyPop    bool     // C13: no zero / white-space-only leaf, no empty slice, no nil pointer, nothing absent
-	NoAltRepr   bool     // render leaves with their exact Go type only
-	ForceCatch  bool     // make sure at least one primitive has Catch
-	NoDataTests bool     // struct / slice level tests are data-independent (pass / fail, no contains)
-	PCoercer    float64  // per primitive/slice: WithCoercer(custom)
-	PLayout     float64  // per time node: z.Time.Format(layout)
-	GlobalKinds []string // base kinds (string,int,float64,bool,time,slice) whose global coercer is overridden in this run
-	PClean      float64  // probability that a case gets no input perturbation at all (PVary/PAbsent/PJunk scaled to 0)
-	PLight      float64  // probability that the perturbation probabilities are scaled by 0.25
+	MaxDepth           int
+	MaxFields          int
+	MaxElems           int
+	MaxTests           int
+	Mode               string  // parse | validate
+	PCatch             float64 // probability that a primitive gets Catch
+	PDefault           float64
+	PReq               float64
+	PPost              float64 // probability of a "mutate" PostTransform on a node
+	PAbsent            float64 // per node: rendered absent
+	PJunk              float64 // per node (parse): rendered as an un-coercible value
+	PVary              float64 // per leaf: a neighbour of the witness instead of the witness
+	PTestSat           float64 // per test: parameter chosen so that the witness satisfies it
+	POpts              float64 // per test: IssueCode / IssuePath / Message options
+	PZogTag            float64 // per field: zog tag
+	NoCustom           bool
+	NoPtr              bool
+	NoFuncTests        bool
+	LeafKinds          []string
+	RootKinds          []string // allowed kinds at the root (nil = any)
+	ManyFields         bool     // allow structs with more than 8 fields
+	FullyPop           bool     // C13: no zero / white-space-only leaf, no empty slice, no nil pointer, nothing absent
+	NoAltRepr          bool     // render leaves with their exact Go type only
+	ForceCatch         bool     // make sure at least one primitive has Catch
+	NoDataTests        bool     // struct / slice level tests are data-independent (pass / fail, no contains)
+	PCoercer           float64  // per primitive/slice: WithCoercer(custom)
+	PLayout            float64  // per time node: z.Time.Format(layout)
+	GlobalKinds        []string // base kinds (string,int,float64,bool,time,slice) whose global coercer is overridden in this run
+	TagKinds           []string // source tags (json, form, query, env) that struct fields may carry
+	PSourceTag         float64  // per field and tag kind
+	NoNestedSourceTags bool     // fields of nested structs carry no source tags (open finding: nested lookups ignore them)
+	NoNestedStructs    bool     // no struct below the root struct (flat sources)
+	LogicalKeys        bool     // Render keys struct values by schema key (a logical record to be re-keyed per front end)
+	PClean             float64  // probability that a case gets no input perturbation at all (PVary/PAbsent/PJunk scaled to 0)
+	PLight             float64  // probability that the perturbation probabilities are scaled by 0.25
 }
 
 func DefaultCfg(mode string) GenCfg {
@@ -56,11 +61,13 @@ func DefaultCfg(mode string) GenCfg {
 
 // Gen holds per-case generator state: the witness value of every leaf.
 type Gen struct {
-	T     *rapid.T
-	Cfg   GenCfg
-	wit   map[*Node]Val
-	seq   int
-	scale float64 // scaling of the input perturbation probabilities for this case
+	T      *rapid.T
+	Cfg    GenCfg
+	wit    map[*Node]Val
+	seq    int
+	scale  float64 // scaling of the input perturbation probabilities for this case
+	sdepth int     // number of enclosing struct schemas of the node being generated
+	envSeq int
 }
 
 func NewGen(t *rapid.T, cfg GenCfg) *Gen {
@@ -625,9 +632,27 @@ func (g *Gen) GenNode(depth int, root bool) *Node {
 			if nf > 6 {
 				d = 0
 			}
+			g.sdepth++
 			f.Node = g.GenNode(d, false)
+			g.sdepth--
 			if g.p(g.Cfg.PZogTag, "zt") {
 				f.Tags = map[string]string{"zog": pick(g, []string{"zt_", "first-", "T"}, "ztp") + key}
+			}
+			if !(g.Cfg.NoNestedSourceTags && g.sdepth > 0) {
+				for _, tk := range g.Cfg.TagKinds {
+					if g.p(g.Cfg.PSourceTag, "st") {
+						if f.Tags == nil {
+							f.Tags = map[string]string{}
+						}
+						g.envSeq++
+						switch tk {
+						case "env":
+							f.Tags[tk] = fmt.Sprintf("ZV_%s_%d", strings.ToUpper(key), g.envSeq)
+						default:
+							f.Tags[tk] = tk[:1] + "_" + key
+						}
+					}
+				}
 			}
 			n.Fields = append(n.Fields, f)
 		}
@@ -721,6 +746,9 @@ func (g *Gen) pickKind(depth int, root bool) string {
 		menu = []string{KStruct, KSlice, KStruct, KPtr, "leaf", KStruct, KSlice, "leaf", KCustom, KStruct}
 	}
 	k := pick(g, menu, "kind")
+	if g.Cfg.NoNestedStructs && g.sdepth > 0 && (k == KStruct || k == KPtr) {
+		k = "leaf"
+	}
 	switch {
 	case k == KPtr && g.Cfg.NoPtr:
 		k = KStruct
@@ -849,7 +877,11 @@ func (g *Gen) Render(n *Node, v Val, pos string) (Val, bool) {
 			fv, _ := v.Get(f.Key)
 			rv, present := g.Render(f.Node, fv, "field")
 			if present {
-				out.M = append(out.M, KV{K: defaultKeyOf(f), V: rv})
+				k := defaultKeyOf(f)
+				if g.Cfg.LogicalKeys {
+					k = f.Key
+				}
+				out.M = append(out.M, KV{K: k, V: rv})
 			}
 		}
 		// permute insertion order of the input map
